@@ -3,6 +3,7 @@ package workflow
 
 import (
 	"context"
+	"encoding/json"
 	"fmt"
 	"go.flow.arcalot.io/engine/internal/infer"
 	"go.flow.arcalot.io/engine/internal/tablefmt"
@@ -489,8 +490,8 @@ func (l *loopState) onStageComplete(
 
 // serializedStageOutput returns the output of a stage in the serialized form that expressions and schema
 // validation work on. Plugin outputs arrive serialized, but the engine-generated outputs (deploy_failed.error,
-// crashed.error) are handed over as Go structs: those are serialized with the schema the lifecycle declares
-// for them. Anything else is passed through unchanged.
+// crashed.error) are handed over as Go structs: those are converted to the serialized object their declared
+// schema describes, using the field names of their JSON tags. Anything else is passed through unchanged.
 func (l *loopState) serializedStageOutput(stepID string, stageID string, outputID string, data any) any {
 	value := reflect.ValueOf(data)
 	for value.Kind() == reflect.Pointer && !value.IsNil() {
@@ -499,22 +500,16 @@ func (l *loopState) serializedStageOutput(stepID string, stageID string, outputI
 	if value.Kind() != reflect.Struct {
 		return data
 	}
-	for _, stage := range l.lifecycles[stepID].Stages {
-		if stage.ID != stageID {
-			continue
-		}
-		output, ok := stage.Outputs[outputID]
-		if !ok {
-			return data
-		}
-		serialized, err := output.Schema().Serialize(data)
-		if err != nil {
-			l.logger.Warningf("failed to serialize the %s.%s output of step %s (%s)", stageID, outputID, stepID, err.Error())
-			return data
-		}
-		return serialized
+	var serialized any
+	encoded, err := json.Marshal(data)
+	if err == nil {
+		err = json.Unmarshal(encoded, &serialized)
 	}
-	return data
+	if err != nil {
+		l.logger.Warningf("failed to serialize the %s.%s output of step %s (%s)", stageID, outputID, stepID, err.Error())
+		return data
+	}
+	return serialized
 }
 
 // Marks the outputs of that stage unresolvable.
